@@ -1,3 +1,4 @@
+import MQ.Inv.PosFrame
 import MQ.Inv.RingMain
 import MQ.Inv.LogFrame
 /-!
@@ -53,5 +54,18 @@ theorem C01_log_grows_only_at_claim (σ : St) (t inp : Nat) (h : ∀ m hh, (σ.t
         | skip
       all_goals (simp only [stepRun, hpc]; repeat' split)
       all_goals first | rfl | (simp; done) | (simp [St.flush, St.setTh]; done)
+
+/-- C01 / C02 (structural — every state, every interleaving, no exclusion): a stream's position and its delivery list
+move together and one value at a time. Every step either leaves all positions and delivery lists alone, or advances the
+stepping thread's own stream to `p + 1` and appends exactly one value to that stream's delivery list (the commit of a
+receive — `r9`, `v4`), or initialises the new stream of an `add_stream` (its position, an empty delivery list). No step
+moves a position without recording a delivery, records a delivery without moving the position, touches another
+stream's position, or moves a position by more than the one committed value. -/
+theorem C01_position_and_delivery_move_together (σ : St) (t inp : Nat) :
+    ((stepRun σ t inp).2.pos = σ.pos ∧ (stepRun σ t inp).2.dlv = σ.dlv) ∨
+    (∃ p v, (stepRun σ t inp).2.pos = upd σ.pos (σ.th t).s (p + 1) ∧
+      (stepRun σ t inp).2.dlv = upd σ.dlv (σ.th t).s (σ.dlv (σ.th t).s ++ [v])) ∨
+    (∃ raw, (stepRun σ t inp).2.pos = upd σ.pos (σ.th t).ns raw ∧ (stepRun σ t inp).2.dlv = upd σ.dlv (σ.th t).ns []) :=
+  pos_dlv_together σ t inp
 
 end MQ
